@@ -135,12 +135,25 @@ def _is_nan(x):
     return (isinstance(x, Opaque) and x.tag == "NaN") or (isinstance(x, float) and x != x)
 
 
+def _inf_tag(x):
+    if isinstance(x, Opaque) and x.tag in ("+inf", "-inf"):
+        return 1 if x.tag == "+inf" else -1
+    if isinstance(x, float) and x in (float("inf"), float("-inf")):
+        return 1 if x > 0 else -1
+    return 0
+
+
 def fmin(eng, a, b):
     # IEEE minNum / maxNum: a NaN operand is ignored
     if _is_nan(a):
         return b
     if _is_nan(b):
         return a
+    if _inf_tag(a) or _inf_tag(b):
+        # every other operand is finite
+        if _inf_tag(a) < 0 or _inf_tag(b) > 0:
+            return a
+        return b
     if is_conc(a) and is_conc(b):
         return a if a <= b else b
     a, b = to_z3(a), to_z3(b)
@@ -152,6 +165,10 @@ def fmax(eng, a, b):
         return b
     if _is_nan(b):
         return a
+    if _inf_tag(a) or _inf_tag(b):
+        if _inf_tag(a) > 0 or _inf_tag(b) < 0:
+            return a
+        return b
     if is_conc(a) and is_conc(b):
         return a if a >= b else b
     a, b = to_z3(a), to_z3(b)
